@@ -215,3 +215,17 @@ claim("C16",
       "orthonormality to machine precision, or RPA <= CIS: those need the dense matrix as an oracle. Stagnation exits are inventoried, not judged. "
       "Trusted: eigh ordering, guard extraction.",
       "DESIGN.md section 4, C16")
+
+claim("C05",
+      "representative-row rule decided by guard extraction + interprocedural requirement propagation over the resolved call graph; spin-flatten expansion lint; "
+      "masked-occupation def-use rule; exhaustive small-integer re-interpretation of the Parser index formulas",
+      "Decides four structural necessary conditions of batch transparency for every batch composition at once: no per-molecule size or "
+      "occupation is taken from row 0 for the whole batch unless a uniformity fact about that same quantity holds there (locally or on "
+      "every call chain from the entry points; same species does not discharge nocc), per-molecule vectors follow the (m0a, m0b, m1a, ...) "
+      "order of spin-flattened matrices, fractional occupations never leak onto padding orbitals, and the flattened block indices "
+      "(maskd, mask, mask_l, atom_molid, pair_molid, idxi/idxj) address row m's own storage for all molsize <= 4, m < 3.",
+      "Does not decide numerical equality of alone-vs-batched results, batch-coupled control flow inside converged tolerances (DIIS resets, "
+      "shared Newton loops), or same-element atom permutation covariance. Two chains (nonadiabatic drivers, XL-ESMD) are discharged by "
+      "protocol facts confirmed at run time and inventoried in the rule. Trusted: name-based recognition of per-molecule quantities, "
+      "callee resolution by simple name.",
+      "DESIGN.md section 4, C05")
